@@ -92,7 +92,7 @@ class Ctx:
 
     cur: "Ctx | None" = None
 
-    def __init__(self, prefix=(), stats: Stats | None = None, hints=(), range_bound=2, timeout_ms=120000, rlimit=60_000_000):
+    def __init__(self, prefix=(), stats: Stats | None = None, hints=(), range_bound=2, timeout_ms=40000, rlimit=60_000_000):
         self.prefix = list(prefix)
         self.pos = 0
         self.solver = z3.Solver()
@@ -128,7 +128,7 @@ class Ctx:
             # occasionally gives up (rlimit) on queries the default core decides at once
             reason = self.solver.reason_unknown()
             s2 = z3.Solver()
-            s2.set("timeout", self._timeout_ms)
+            s2.set("timeout", max(self._timeout_ms, 120000))  # the incremental solver gets 40 s of wall time, the second opinion 120 s
             s2.set("rlimit", self._rlimit)
             s2.add(*self.solver.assertions())
             s2.add(*assumptions)
